@@ -174,6 +174,31 @@ func c14NilReturnReach(V *c14View, starts []c14Pt, root *ssa.Function, cu *cut) 
 	return r
 }
 
+// c14ThroughSpill resolves v through parameters of inlined helpers and through
+// the local copies a struct-typed parameter is spilled into (`t = local T; *t = p`).
+func c14ThroughSpill(V *c14View, v ssa.Value) ssa.Value {
+	for i := 0; i < 8; i++ {
+		ls := V.LeavesShallow(v)
+		if len(ls) != 1 {
+			return nil
+		}
+		u, ok := ls[0].(*ssa.UnOp)
+		if !ok || u.Op != token.MUL {
+			return ls[0]
+		}
+		a, ok := u.X.(*ssa.Alloc)
+		if !ok {
+			return ls[0]
+		}
+		sts := c14CellStores(a)
+		if len(sts) != 1 {
+			return ls[0]
+		}
+		v = sts[0].Val
+	}
+	return nil
+}
+
 func c14FnSet(v *c14View) map[*ssa.Function]bool {
 	out := map[*ssa.Function]bool{}
 	for _, f := range v.Funcs() {
@@ -1174,6 +1199,45 @@ func c14R3Callers(c *Ctx, us []*c14Upd) {
 			}
 			c.Check(R, fn+"|only-without-referrers-api", call.Pos(), okG,
 				ifelse(okG, fmt.Sprintf("every path to the index update (from %d entry point(s)) has seen the Referrers API as not supported", len(ents)), "the client-side index is updated although the Referrers API may be known as supported: "+why))
+			// delete flow: the deletion of the manifest itself still happens when the index update ends in an error
+			// (the index was already rewritten without the manifest; the error may be the ignorable index-GC error)
+			for _, E := range ents {
+				EV := c14NewView(E, 6, c14RemoteExpandAll)
+				var target *ssa.Parameter
+				for _, p := range E.Params {
+					if strings.HasSuffix(p.Type().String(), "specs-go/v1.Descriptor") {
+						target = p
+					}
+				}
+				var dels []ssa.CallInstruction
+				for _, dc := range EV.Calls(func(string) bool { return true }) {
+					if !c14IsDel(dc) {
+						continue
+					}
+					for _, a := range dc.Common().Args {
+						if target != nil && c14ThroughSpill(EV, a) == ssa.Value(target) {
+							dels = append(dels, dc)
+						}
+					}
+				}
+				if len(dels) == 0 || target == nil {
+					continue // not a delete flow
+				}
+				var nn []Edge
+				if er := ErrOf(call); er != nil {
+					_, nn = EV.NilTests(EV.Aliases(er))
+				}
+				okDel := false
+				for _, ed := range nn {
+					for _, dc := range dels {
+						if EV.EdgeReach(ed, dc.(ssa.Instruction), nil) {
+							okDel = true
+						}
+					}
+				}
+				c.Check(R, FnName(E)+"|manifest-delete-not-skipped-on-index-error", call.Pos(), okDel,
+					ifelse(okDel, "after an error of the index update the manifest delete is still reachable", "when the referrers index update ends in an error — including the ignorable ReferrersError for the GC of the old index, reported after the new index (without this manifest) was pushed — the manifest itself is not deleted: it stays live, names the subject, and is no longer listed as its referrer (demo: checker/c14_demo_delete_skipped_after_index_gc_failure.txt)"))
+			}
 			// converse: with a subject and no API the update is not skipped
 			_, avail := c14EvidenceV(V, supported)
 			cu := newCut().Calls(ucalls).Edges(avail...)
